@@ -337,6 +337,43 @@ def rw_final_newline(fx, rnd):
     return None
 
 
+SKIPS_COMMENTS_BEFORE_BODY = {"Request", "Query", "Path", "Headers", "ENUM", "Params", "Result"}
+
+
+def rw_comment_before_body(fx, rnd):
+    """comment lines between the line of a directive and its body on the following lines, for the directives that skip
+    comments there themselves (a response code too) - in every comment spelling, the double hash included"""
+    if fx.nl is None:
+        return None
+    d = fx.data
+    pos = []
+    for k, (t, b, e) in enumerate(fx.lex):
+        if t not in (SCHEMA, ENUM):
+            continue
+        j = k - 1
+        while j >= 0 and fx.lex[j][0] in (PARAM, ANNOT):
+            j -= 1
+        if j < 0 or fx.lex[j][0] != KW:
+            continue
+        kw = d[fx.lex[j][1]:fx.lex[j][2] + 1].decode("latin1")
+        if not (kw in SKIPS_COMMENTS_BEFORE_BODY or kw.isdigit()):
+            continue
+        ls = line_start(d, b)
+        if ls <= fx.lex[j][1] or d[ls:b].strip(b" \t") != b"":
+            continue                # the body begins on the line of the keyword
+        if rnd.random() < 0.6:
+            pos.append(ls)
+    if not pos:
+        return None
+    out, last = [], 0
+    for n, p in enumerate(pos):
+        out.append(d[last:p])
+        out.append(rnd.choice([b"# c", b"## c%d" % n, b"##", b"  ###### ", b"### block ###", b"### b" + fx.nl + b"GET /hidden" + fx.nl + b"###", b"#"]) + fx.nl)
+        last = p
+    out.append(d[last:])
+    return b"".join(out)
+
+
 def rw_newlines(fx, rnd, to):
     if fx.nl != b"\n" or to == b"\n":
         return None
@@ -414,7 +451,7 @@ def rw_parens(fx, rnd):
 
 
 C05_FAMILIES = {
-    "comments": rw_comments, "final_newline": rw_final_newline, "trailcomment": rw_trailcomment, "blank": rw_blank, "indent": rw_indent, "trailing": rw_trailing, "parens": rw_parens,
+    "comments": rw_comments, "comment_before_body": rw_comment_before_body, "final_newline": rw_final_newline, "trailcomment": rw_trailcomment, "blank": rw_blank, "indent": rw_indent, "trailing": rw_trailing, "parens": rw_parens,
     "crlf": lambda fx, rnd: rw_newlines(fx, rnd, b"\r\n"), "cr": lambda fx, rnd: rw_newlines(fx, rnd, b"\r"),
 }
 
@@ -467,6 +504,9 @@ def c05(chk, tier):
         names = list(C05_FAMILIES)
         if not thorough:
             names = rnd.sample(names, 3)
+            for rare in ("comment_before_body", "final_newline"):      # seldom applicable, cheap: always tried
+                if rare not in names:
+                    names.append(rare)
         for nm in names:
             for rep in range(2 if thorough and nm in ("comments", "trailcomment", "blank", "indent", "parens", "trailing") else 1):
                 try:
